@@ -376,7 +376,7 @@ mapkey-undef index-str index-nonmap argcount argcount-more argkind argkind-meth 
 panic-func panic-func-if panic-func-arg panic-func-return panic-method panic-conc nil-func break-outside continue-outside
 unbounded-for unbounded-nested range-noniter range-int unbounded-continue unbounded-continue-if index-write-conc
 index-read-conc store-kind-conc argcount-conc argkind-conc nil-deref-conc nil-func-conc undef-func-conc undef-method-conc
-panic-method-conc panic-three-conc unexp-return unexp-return-local unexp-arg unexp-set unexp-conc panic-three undef-root-3 local-root-3 local-root-3-if read-unbound cond-notbool-elseif cond-notbool-elseif2""".split()
+panic-method-conc panic-three-conc unexp-return unexp-return-local unexp-arg unexp-set unexp-conc panic-three undef-root-3 local-root-3 local-root-3-if read-unbound cond-notbool-elseif cond-notbool-elseif2 cyclic-read cyclic-write""".split()
 
 
 BENIGN_CODES = ["grow-range", "grow-range-map", "long-for", "nested-for", "range-in-for", "break-inner"]
